@@ -1,5 +1,436 @@
 package main
 
-func procMain(cases, out, res string, shard, shards int, bin string) {
-	panic("not built yet")
+// Process-level tier of C11: the real mosn binary, real SIGTERM (graceful stop) and SIGHUP (hot upgrade: the old
+// process forks a new one, hands the listener sockets over and transfers xprotocol connections together with their
+// read buffers). Every trial runs in its own directory (the reconfigure / transfer unix sockets live next to the
+// configuration file); server graceful_timeout = 3 s.
+
+import (
+	"encoding/json"
+	"fmt"
+	"os"
+	"os/exec"
+	"path/filepath"
+	"sort"
+	"strconv"
+	"strings"
+	"sync"
+	"sync/atomic"
+	"syscall"
+	"time"
+
+	"mosn.io/api"
+	v2 "mosn.io/mosn/pkg/config/v2"
+	"verif/e2e"
+	"verif/vh"
+)
+
+const (
+	procDrainMs   = 15000 // server.drainTime (not configurable from the configuration file)
+	gracefulMs    = 3000  // graceful_timeout of the trials: GracefulTimeout and TransferTimeout
+	readTimeoutMs = 15000 // types.DefaultConnReadTimeout
+	lateResumeMs  = 33000 // "late" environment of an upgrade: after every transferable connection was handed over
+	//                       (3 s + 2*graceful + one read timeout = 24 s at most) and before the old process leaves (>= 3 s + 36 s)
+)
+
+type child struct {
+	dir  string
+	cmd  *exec.Cmd
+	done chan struct{}
+	code int
+}
+
+func killTree(dir string) {
+	// every process started for this trial carries the trial directory in its command line
+	ents, _ := os.ReadDir("/proc")
+	for _, e := range ents {
+		pid, err := strconv.Atoi(e.Name())
+		if err != nil || pid == os.Getpid() {
+			continue
+		}
+		b, err := os.ReadFile("/proc/" + e.Name() + "/cmdline")
+		if err != nil {
+			continue
+		}
+		if strings.Contains(string(b), dir) {
+			syscall.Kill(pid, syscall.SIGKILL)
+		}
+	}
+}
+
+func procMain(casesPath, out, res string, shard, shards int, bin string) {
+	if bin == "" {
+		vh.Must(fmt.Errorf("-bin missing"), "proc mode")
+	}
+	root, err := os.MkdirTemp("", "c11p-")
+	vh.Must(err, "scratch")
+	defer os.RemoveAll(root)
+	defer killTree(root)
+
+	arr := newArrivals()
+	hup, hstop := httpUpstream(arr)
+	defer hstop()
+	bup, bstop := boltUpstream(arr)
+	defer bstop()
+	h2up, h2stop := h2Upstream(arr)
+	defer h2stop()
+
+	tr := &ttrace{Trace: vh.NewTrace(out), t0: time.Now()}
+	defer tr.Close()
+	rs := vh.NewOut(res)
+	defer rs.Close()
+
+	idx := 0
+	err = vh.ReadCases(casesPath, func(raw json.RawMessage) error {
+		idx++
+		if (idx-1)%shards != shard {
+			return nil
+		}
+		var c scase
+		if err := json.Unmarshal(raw, &c); err != nil {
+			return err
+		}
+		dir := filepath.Join(root, fmt.Sprintf("t%d", c.ID))
+		r := procTrial(tr, arr, c, dir, bin, shard, map[string]string{"http1": hup, "bolt": bup, "http2": h2up})
+		killTree(dir)
+		os.RemoveAll(dir)
+		rs.Put(r)
+		return nil
+	})
+	vh.Must(err, "cases")
+}
+
+func startChild(dir, bin string, ups map[string]string) (*child, map[string]*listenerInfo, error) {
+	conf := filepath.Join(dir, "conf")
+	os.MkdirAll(conf, 0o755)
+	os.MkdirAll(filepath.Join(dir, "logs"), 0o755)
+	lis := map[string]*listenerInfo{
+		"http1": {name: "c11h1", addr: e2e.FreeAddr(), dial: newH1},
+		"bolt":  {name: "c11bolt", addr: e2e.FreeAddr(), dial: newBolt},
+		"http2": {name: "c11h2", addr: e2e.FreeAddr(), dial: newH2},
+	}
+	clusters := e2e.BuildClusters([]e2e.ClusterSpec{{Name: "uh1", Hosts: []string{ups["http1"]}}, {Name: "ubolt", Hosts: []string{ups["bolt"]}}, {Name: "uh2", Hosts: []string{ups["http2"]}}})
+	boltRoutes := []e2e.RouteSpec{{Prefix: "/", Cluster: "ubolt", TimeoutMs: 120000, Extra: func(r *v2.Router) {
+		r.Match = v2.RouterMatch{Headers: []v2.HeaderMatcher{{Name: "service", Value: "c11"}}}
+	}}}
+	lsts := []v2.Listener{
+		e2e.BuildListener(e2e.ListenerSpec{Name: "c11h1", Addr: lis["http1"].addr, Downstream: "Http1", Upstream: "Http1",
+			Routes: []e2e.RouteSpec{{Prefix: "/", Cluster: "uh1", TimeoutMs: 120000}}}),
+		e2e.BuildListener(e2e.ListenerSpec{Name: "c11bolt", Addr: lis["bolt"].addr, Downstream: "X", Upstream: "X", SubProto: "bolt", Routes: boltRoutes}),
+		e2e.BuildListener(e2e.ListenerSpec{Name: "c11h2", Addr: lis["http2"].addr, Downstream: "Http2", Upstream: "Http2",
+			Routes: []e2e.RouteSpec{{Prefix: "/", Cluster: "uh2", TimeoutMs: 120000}}}),
+	}
+	cfg := e2e.BuildConfig(lsts, clusters, filepath.Join(dir, "logs", "mosn.log"))
+	cfg.DisableUpgrade = false
+	cfg.Servers[0].DefaultLogLevel = "INFO"
+	cfg.Servers[0].GracefulTimeout = api.DurationConfig{Duration: gracefulMs * time.Millisecond}
+	b, err := json.MarshalIndent(cfg, "", " ")
+	if err != nil {
+		return nil, nil, err
+	}
+	cpath := filepath.Join(conf, "mosn_config.json")
+	if err := os.WriteFile(cpath, b, 0o644); err != nil {
+		return nil, nil, err
+	}
+	lg, _ := os.Create(filepath.Join(dir, "stdout.log"))
+	cmd := exec.Command(bin, "start", "-c", cpath)
+	cmd.Stdout, cmd.Stderr = lg, lg
+	cmd.Dir = dir
+	if err := cmd.Start(); err != nil {
+		return nil, nil, err
+	}
+	ch := &child{dir: dir, cmd: cmd, done: make(chan struct{})}
+	go func() {
+		err := cmd.Wait()
+		ch.code = 0
+		if err != nil {
+			ch.code = -1
+			if ee, ok := err.(*exec.ExitError); ok {
+				ch.code = ee.ExitCode()
+			}
+		}
+		lg.Close()
+		close(ch.done)
+	}()
+	for _, li := range lis {
+		if err := e2e.WaitListen(li.addr, 30*time.Second); err != nil {
+			return ch, lis, fmt.Errorf("%s: %v", li.name, err)
+		}
+	}
+	// the reconfigure socket of the old process appears one second after the start
+	for i := 0; i < 300; i++ {
+		if _, err := os.Stat(filepath.Join(conf, "reconfig.sock")); err == nil {
+			break
+		}
+		time.Sleep(20 * time.Millisecond)
+	}
+	return ch, lis, nil
+}
+
+func (c *child) exited(d time.Duration) bool {
+	select {
+	case <-c.done:
+		return true
+	case <-time.After(d):
+		return false
+	}
+}
+
+func procTrial(tr *ttrace, arr *arrivals, c scase, dir, bin string, shard int, ups map[string]string) map[string]interface{} {
+	ch, lis, err := startChild(dir, bin, ups)
+	if err != nil {
+		tail := ""
+		if b, e := os.ReadFile(filepath.Join(dir, "stdout.log")); e == nil && len(b) > 0 {
+			if len(b) > 600 {
+				b = b[len(b)-600:]
+			}
+			tail = string(b)
+		}
+		tr.Close()
+		vh.Must(fmt.Errorf("case %d: %v\n%s", c.ID, err, tail), "start of the mosn binary")
+	}
+	li := lis[c.Proto]
+	tr.Emit(vh.Ev{"ev": "run", "id": c.ID, "proto": c.Proto, "mode": c.Mode, "sig": c.Sig, "drain_ms": procDrainMs, "graceful_ms": gracefulMs, "case": c})
+	names := []string{}
+	for n, cc := range c.Conns {
+		if cc.Open {
+			names = append(names, n)
+		}
+	}
+	sort.Strings(names)
+	conns := map[string]*live{}
+	prefix := fmt.Sprintf("p%d-%d", shard, c.ID)
+	fail := func(what string, err error) {
+		tr.Close()
+		killTree(dir)
+		vh.Must(fmt.Errorf("case %d %s: %v", c.ID, what, err), "set-up of the signal point")
+	}
+	for _, n := range names {
+		cl, err := li.dial(li.addr)
+		if err != nil {
+			fail("dial", err)
+		}
+		tr.Emit(vh.Ev{"ev": "c.connect", "c": n, "ok": true, "when": "pre"})
+		conns[n] = &live{cl: cl, ph: "idle"}
+		for k := 0; k < c.Conns[n].Done; k++ {
+			advanceReq(tr, arr, conns[n], n, "hdr", prefix, c.Conns[n])
+			ok, d := advanceReq(tr, arr, conns[n], n, "idle", prefix, c.Conns[n])
+			tr.Emit(vh.Ev{"ev": "c.done", "c": n, "k": conns[n].k, "ok": ok, "detail": d})
+			if !ok {
+				fail("request before the signal", fmt.Errorf("%s", d))
+			}
+		}
+		if ph := c.Conns[n].Ph; ph != "idle" {
+			if ok, d := advanceReq(tr, arr, conns[n], n, ph, prefix, c.Conns[n]); !ok {
+				fail("bring request to phase "+ph, fmt.Errorf("%s", d))
+			}
+		}
+	}
+	time.Sleep(100 * time.Millisecond) // streams of completed requests end on the server (no hooks in the binary)
+
+	sig := syscall.SIGTERM
+	if c.Sig == "hup" {
+		sig = syscall.SIGHUP
+	}
+	tr.Emit(vh.Ev{"ev": "signal", "sig": c.Sig})
+	t0 := time.Now()
+	if err := ch.cmd.Process.Signal(sig); err != nil {
+		fail("signal", err)
+	}
+	var emu sync.Mutex
+	exitLogged := false
+	logExit := func() {
+		emu.Lock()
+		defer emu.Unlock()
+		if exitLogged {
+			return
+		}
+		exitLogged = true
+		e := vh.Ev{"ev": "exit", "elapsed_ms": time.Since(t0).Milliseconds(), "drain_ms": procDrainMs, "err": ""}
+		if ch.code != 0 {
+			e["err"] = fmt.Sprintf("exit status %d", ch.code)
+		}
+		tr.Emit(e)
+	}
+	atomic.StoreInt64(&arrivalWaitMs, int64(ioWait/time.Millisecond))
+	go func() {
+		<-ch.done
+		if c.Sig != "hup" {
+			atomic.StoreInt64(&arrivalWaitMs, 3000) // nothing forwards requests any more
+		}
+		logExit()
+	}()
+
+	finish := func() {
+		var wg sync.WaitGroup
+		for _, n := range names {
+			if conns[n].ph == "idle" {
+				continue
+			}
+			n := n
+			tr.Emit(vh.Ev{"ev": "c.step", "c": n, "k": conns[n].k})
+			wg.Add(1)
+			go func() {
+				defer wg.Done()
+				ok, d := advanceReq(tr, arr, conns[n], n, "idle", prefix, c.Conns[n])
+				tr.Emit(vh.Ev{"ev": "c.done", "c": n, "k": conns[n].k, "ok": ok, "detail": d})
+			}()
+		}
+		wg.Wait()
+	}
+	probe := func(c string, when string) bool {
+		pc, err := dialRaw(li.addr)
+		tr.Emit(vh.Ev{"ev": "c.connect", "c": c, "ok": err == nil, "when": when})
+		if err == nil {
+			pc.Close()
+		}
+		return err == nil
+	}
+	result := map[string]interface{}{"id": c.ID, "proto": c.Proto, "mode": c.Mode, "sig": c.Sig}
+
+	if c.Sig != "hup" {
+		// ---- graceful stop
+		if c.Mode == "hang" {
+			ch.exited(time.Duration(procDrainMs)*time.Millisecond + 90*time.Second)
+		} else {
+			ch.exited(300 * time.Millisecond) // the signal is being handled; a process with nothing to wait for is gone by now
+		}
+		select {
+		case <-ch.done:
+			logExit()
+		default:
+		}
+		finish()
+		ex := ch.exited(time.Duration(procDrainMs)*time.Millisecond + 90*time.Second)
+		if ex {
+			logExit()
+			probe("p", "late")
+		}
+		tr.Emit(vh.Ev{"ev": "quiesce", "exited": ex, "active": 0})
+		result["exited"], result["elapsed_ms"] = ex, time.Since(t0).Milliseconds()
+		for _, lv := range conns {
+			lv.cl.Close()
+		}
+		arr.releaseAll()
+		return result
+	}
+
+	// ---- hot upgrade
+	stop := make(chan struct{})
+	var bg sync.WaitGroup
+	var cmu sync.Mutex // requests of the short-lived and long-lived loops are recorded one at a time
+	// short-lived connections: connect, one request, close - throughout the switch
+	bg.Add(1)
+	go func() {
+		defer bg.Done()
+		i := 0
+		for {
+			select {
+			case <-stop:
+				return
+			case <-time.After(250 * time.Millisecond):
+			}
+			i++
+			cl, err := li.dial(li.addr)
+			if err != nil {
+				cmu.Lock()
+				tr.Emit(vh.Ev{"ev": "c.connect", "c": "s", "ok": false, "when": "during", "detail": short(err)})
+				cmu.Unlock()
+				continue
+			}
+			lv := &live{cl: cl, ph: "idle", k: i - 1}
+			ok, d := quietRequest(arr, lv, fmt.Sprintf("%s-s", prefix))
+			cmu.Lock()
+			tr.Emit(vh.Ev{"ev": "c.req", "kind": "short", "c": "s", "k": i, "ok": ok, "detail": d, "final": false})
+			cmu.Unlock()
+			cl.Close()
+		}
+	}()
+
+	if c.Mode == "late" {
+		time.Sleep(time.Duration(lateResumeMs) * time.Millisecond)
+	} else {
+		time.Sleep(50 * time.Millisecond)
+	}
+	finish()
+	failed := map[string]bool{}
+	// long-lived connections go on carrying requests until the proxy tells them to stop or the switch is over
+	for _, n := range names {
+		n := n
+		bg.Add(1)
+		go func() {
+			defer bg.Done()
+			lv := conns[n]
+			for {
+				if lv.cl.GoneAway() {
+					cmu.Lock()
+					tr.Emit(vh.Ev{"ev": "c.goneaway", "c": n})
+					cmu.Unlock()
+					return
+				}
+				select {
+				case <-stop:
+					return
+				case <-time.After(700 * time.Millisecond):
+				}
+				if lv.cl.GoneAway() {
+					continue
+				}
+				ok, d := quietRequest(arr, lv, fmt.Sprintf("%s-%s", prefix, n))
+				cmu.Lock()
+				tr.Emit(vh.Ev{"ev": "c.req", "kind": "long", "c": n, "k": lv.k, "ok": ok, "detail": d, "final": false})
+				cmu.Unlock()
+				if !ok {
+					cmu.Lock()
+					failed[n] = true
+					cmu.Unlock()
+					return
+				}
+			}
+		}()
+	}
+	// the old process leaves after 3 s + drain + 2*graceful + 2*read timeout
+	bound := time.Duration(3000+procDrainMs+2*gracefulMs+2*readTimeoutMs)*time.Millisecond + 120*time.Second
+	ex := ch.exited(bound)
+	if ex {
+		logExit()
+		time.Sleep(2500 * time.Millisecond) // the new process alone: new connections and transferred ones are still served
+	}
+	close(stop)
+	bg.Wait()
+	if ex && c.Proto == "bolt" {
+		// handed over: with the old process gone, every long-lived transferable connection still answers
+		for _, n := range names {
+			lv := conns[n]
+			if failed[n] {
+				continue
+			}
+			ok, d := quietRequest(arr, lv, fmt.Sprintf("%s-%s", prefix, n))
+			tr.Emit(vh.Ev{"ev": "c.req", "kind": "long", "c": n, "k": lv.k, "ok": ok, "detail": d, "final": true})
+		}
+	}
+	tr.Emit(vh.Ev{"ev": "quiesce", "exited": ex, "active": 0})
+	result["exited"], result["elapsed_ms"] = ex, time.Since(t0).Milliseconds()
+	for _, lv := range conns {
+		lv.cl.Close()
+	}
+	arr.releaseAll()
+	return result
+}
+
+// quietRequest performs one complete request on lv without recording its phases.
+func quietRequest(arr *arrivals, lv *live, prefix string) (bool, string) {
+	lv.k++
+	tok := fmt.Sprintf("%s-%d", prefix, lv.k)
+	arr.release(tok) // the upstream answers at once
+	if err := lv.cl.Hdr(tok, smallResp); err != nil {
+		return false, "write headers: " + short(err)
+	}
+	if err := lv.cl.HalfBody(); err != nil {
+		return false, "write body: " + short(err)
+	}
+	if err := lv.cl.Rest(); err != nil {
+		return false, "write body: " + short(err)
+	}
+	return lv.cl.ReadRest()
 }
